@@ -133,7 +133,14 @@ fn c08_type<P: KS>(out: &mut Out, seed: u64, tier: &Tier, counter: &mut usize) {
                 );
                 match res {
                     Some(v) => all.push(l(vec![dna(r), l(v.iter().map(piece_v).collect())])),
-                    None => ok = false,
+                    None => {
+                        ok = false;
+                        // inside the guards of C08_piece_exact (p <= k <= |read| < 2^32, 2k-p within the u16 length and
+                        // within the container's capacity) msp_sequence returns: a panic there is a failing input
+                        if p <= k && k <= r.len() && 2 * k - p <= 65535 && ((2 * k - p) as u128) <= maxlen {
+                            out.case("s.no_panic", l(vec![nu(k), nu(p), nu(r.len())]), V::Bot);
+                        }
+                    }
                 }
             }
             if ok {
